@@ -208,7 +208,7 @@ func nearLimitRoundTrip(c *Ctx) []Case {
 		s := string(bytes.Repeat([]byte{'z'}, 8388603))
 		return ast.NewListNode(ast.NewUintNode(1, 7), ast.NewListNode(ast.NewASCIINode(s), ast.NewASCIINode(s))), nil
 	}}
-	cases := []mk{ascii(max), ascii(max - 3), ascii(max - 4), ints("I", 2, max/2), binary(max - 2), list2, list3}
+	cases := []mk{ascii(max), ascii(max - 3), ascii(max - 4), ints("I", 2, max/2), ints("U", 1, max), binary(max - 2), list2, list3}
 	if c.Tier == "thorough" {
 		cases = append(cases, ascii(max-1), ascii(max-2), ascii(max-10), ascii(max-14), ints("U", 1, max-1), ints("U", 4, max/4), ints("I", 8, max/8), ints("U", 2, max/2-1), binary(max))
 	}
